@@ -15,7 +15,7 @@ def leaf(tok, n, timeout=600, solver=None):
 
 
 def leaf_cases(tier):
-    n = 6 if tier == "quick" else 9
+    n = 8 if tier == "quick" else 12
     return [leaf(t, n, timeout=600 if tier == "quick" else 3000) for t in sorted(TOKS)]
 
 
@@ -43,7 +43,7 @@ def cases(tier):
 
 
 META = dict(
-    bounds=dict(input_len="0..6 quick, 0..9 thorough, all byte values, every start offset"),
+    bounds=dict(input_len="recognisers: 0..8 quick, 0..12 thorough, all byte values, every start offset; program data 0..5/6 quick, 0..7/9 thorough; units 0..4 quick, 0..6/7 thorough"),
     outside=["inputs longer than the bound", "indefinite-length blocks (#0...), nested expressions, strict suffix syntax "
              "(documented leniencies)", "IEEE 488.2 white space other than blank and tab (the source documents WS as SPACE|TAB)",
              "a lone CR is accepted as terminator by the implementation; the oracle tolerates it (DESIGN.md section 4)"],
